@@ -382,3 +382,177 @@ Proof. vm_compute. repeat split. Qed.
 
 Example example_text_tree : loads_decode (dumps (enc_min ex_tree)) = TOk (PTree ex_tree).
 Proof. vm_compute. reflexivity. Qed.
+
+(* ------------------------------------------------------------------------------------------------ *)
+(* 5. The command line's format (indent=2): what is printed reads back                                *)
+
+Lemma skip_ws_spaces n s : skip_ws (spaces_k n s) = skip_ws s.
+Proof. induction n as [|n IH]; [reflexivity|]. cbn [spaces_k]. change (skip_ws (String (ch 32) (spaces_k n s))) with (skip_ws (spaces_k n s)). exact IH. Qed.
+Lemma skip_ws_newline lvl s : skip_ws (newline_k lvl s) = skip_ws s.
+Proof. unfold newline_k. change (skip_ws (String (ch 10) (spaces_k (2 * lvl) s))) with (skip_ws (spaces_k (2 * lvl) s)). apply skip_ws_spaces. Qed.
+Lemma skip_ws_idem s : skip_ws (skip_ws s) = skip_ws s.
+Proof. induction s as [|c r IH]; [reflexivity|]. cbn [skip_ws]. destruct (is_jws c) eqn:E; [exact IH|]. cbn [skip_ws]. rewrite E. reflexivity. Qed.
+Lemma pv_skip f s : parse_value f s = parse_value f (skip_ws s).
+Proof. destruct f; [reflexivity|]. cbn [parse_value]. rewrite skip_ws_idem. reflexivity. Qed.
+Lemma pv_newline f lvl s : parse_value f (newline_k lvl s) = parse_value f s.
+Proof. rewrite (pv_skip f (newline_k lvl s)), skip_ws_newline, <- pv_skip. reflexivity. Qed.
+Lemma parse_elems_newline f n lvl s : parse_elems (parse_value f) n (newline_k lvl s) = parse_elems (parse_value f) n s.
+Proof. destruct n; [reflexivity|]. cbn [parse_elems]. rewrite pv_newline. reflexivity. Qed.
+Lemma newline_length lvl k : String.length k < String.length (newline_k lvl k).
+Proof.
+  unfold newline_k. cbn [String.length]. assert (H : forall n, String.length k <= String.length (spaces_k n k)).
+  { induction n as [|n IH]; cbn [spaces_k String.length]; lia. }
+  specialize (H (2 * lvl)). lia.
+Qed.
+Lemma num_end_newline lvl s : num_end (newline_k lvl s) = true.
+Proof. reflexivity. Qed.
+
+Fixpoint pelems_i (lvl : nat) (k : string) (first : bool) (l : list json) : string :=
+  match l with
+  | [] => newline_k lvl (String (ch 93) k)
+  | x :: r => (if first then newline_k (S lvl) else fun s => String (ch 44) (newline_k (S lvl) s))
+                (print_ind (S lvl) x (pelems_i lvl k false r))
+  end.
+Fixpoint pmembs_i (lvl : nat) (k : string) (first : bool) (l : list (string * json)) : string :=
+  match l with
+  | [] => newline_k lvl (String (ch 125) k)
+  | (key, v) :: r => (if first then newline_k (S lvl) else fun s => String (ch 44) (newline_k (S lvl) s))
+                       (quote_k key (append ": " (print_ind (S lvl) v (pmembs_i lvl k false r))))
+  end.
+Lemma print_ind_arr lvl x0 r0 k : print_ind lvl (JArr (x0 :: r0)) k = String (ch 91) (pelems_i lvl k true (x0 :: r0)).
+Proof.
+  cbn [print_ind pelems_i]. f_equal. f_equal. f_equal.
+  match goal with |- ?F false r0 = _ => assert (H : forall l0 first, F first l0 = pelems_i lvl k first l0) end.
+  { induction l0 as [|x r IH]; intro first; [reflexivity|]. cbn [pelems_i]. rewrite <- IH. reflexivity. }
+  apply H.
+Qed.
+Lemma print_ind_obj lvl kv0 r0 k : print_ind lvl (JObj (kv0 :: r0)) k = String (ch 123) (pmembs_i lvl k true (kv0 :: r0)).
+Proof.
+  destruct kv0 as [key0 v0]. cbn [print_ind pmembs_i]. f_equal. f_equal. f_equal. f_equal. f_equal.
+  match goal with |- ?F false r0 = _ => assert (H : forall l0 first, F first l0 = pmembs_i lvl k first l0) end.
+  { induction l0 as [|[key v] r IH]; intro first; [reflexivity|]. cbn [pmembs_i]. rewrite <- IH. reflexivity. }
+  apply H.
+Qed.
+
+Lemma print_ind_head lvl x K :
+  exists c r, print_ind lvl x K = String c r /\ is_jws c = false /\ (code c =? 93) = false /\ (code c =? 125) = false.
+Proof.
+  destruct x as [|b|z|s|[|x0 r0]|[|kv0 r0]]; try exact (print_k_head _ K).
+  - rewrite print_ind_arr. eexists; eexists; repeat split; reflexivity.
+  - rewrite print_ind_obj. eexists; eexists; repeat split; reflexivity.
+Qed.
+
+Definition reads_back_i (y : json) : Prop :=
+  forall lvl k f, num_end k = true -> jsize y <= f -> parse_value f (print_ind lvl y k) = POk y k.
+
+Lemma elems_parse_i : forall r x lvl k f n,
+  Forall reads_back_i (x :: r) -> num_end k = true -> sum_sizes (x :: r) <= f -> List.length (x :: r) <= n ->
+  parse_elems (parse_value f) n (print_ind (S lvl) x (pelems_i lvl k false r)) = POk (x :: r) k.
+Proof.
+  induction r as [|y r' IH]; intros x lvl k f n HF Hk Hs Hn.
+  - destruct n as [|n']; [cbn in Hn; lia|]. cbn [pelems_i parse_elems].
+    inversion HF as [|? ? Hx _]; subst. rewrite (Hx (S lvl) _ f); [|reflexivity|rewrite sum_sizes_cons in Hs; lia].
+    rewrite skip_ws_newline, skip_ws_nonws by reflexivity. reflexivity.
+  - destruct n as [|n']; [cbn in Hn; lia|]. cbn [pelems_i parse_elems].
+    inversion HF as [|? ? Hx HF']; subst. rewrite sum_sizes_cons in Hs.
+    rewrite (Hx (S lvl) _ f); [|reflexivity|lia].
+    rewrite skip_ws_nonws by reflexivity. change (code (ch 44) =? 44) with true. cbv iota.
+    rewrite parse_elems_newline. rewrite (IH y lvl k f n' HF' Hk); [reflexivity|lia|cbn [List.length] in *; lia].
+Qed.
+
+Lemma membs_parse_i : forall r key v lvl k f n,
+  Forall (fun kv : string * json => reads_back_i (snd kv)) ((key, v) :: r) -> num_end k = true ->
+  sum_msizes ((key, v) :: r) <= f -> List.length ((key, v) :: r) <= n ->
+  parse_membs (parse_value f) n (quote_k key (append ": " (print_ind (S lvl) v (pmembs_i lvl k false r)))) = POk ((key, v) :: r) k.
+Proof.
+  induction r as [|[key2 v2] r' IH]; intros key v lvl k f n HF Hk Hs Hn.
+  - destruct n as [|n']; [cbn in Hn; lia|]. unfold quote_k. cbn [parse_membs].
+    change (code dquote =? 34) with true. cbv iota. rewrite escape_parse.
+    match goal with |- context [append ": " ?X] => change (append ": " X) with (String (ch 58) (String (ch 32) X)) end.
+    rewrite skip_ws_nonws by reflexivity. change (code (ch 58) =? 58) with true. cbv iota.
+    rewrite pv_ws. inversion HF as [|? ? Hx _]; subst. cbn [snd] in Hx. cbn [pmembs_i].
+    rewrite (Hx (S lvl) _ f); [|reflexivity|rewrite sum_msizes_cons in Hs; cbn [snd] in Hs; lia].
+    rewrite skip_ws_newline, skip_ws_nonws by reflexivity. reflexivity.
+  - destruct n as [|n']; [cbn in Hn; lia|]. unfold quote_k at 1. cbn [parse_membs].
+    change (code dquote =? 34) with true. cbv iota. rewrite escape_parse.
+    match goal with |- context [append ": " ?X] => change (append ": " X) with (String (ch 58) (String (ch 32) X)) end.
+    rewrite skip_ws_nonws by reflexivity. change (code (ch 58) =? 58) with true. cbv iota.
+    rewrite pv_ws. inversion HF as [|? ? Hx HF']; subst. cbn [snd] in Hx.
+    rewrite sum_msizes_cons in Hs. cbn [snd] in Hs.
+    cbn [pmembs_i].
+    rewrite (Hx (S lvl) _ f); [|reflexivity|lia].
+    rewrite skip_ws_nonws by reflexivity. change (code (ch 44) =? 44) with true. cbv iota.
+    rewrite skip_ws_newline.
+    match goal with |- context [skip_ws (quote_k ?a ?b)] => change (skip_ws (quote_k a b)) with (quote_k a b) end.
+    rewrite (IH key2 v2 lvl k f n' HF' Hk); [reflexivity|lia|cbn [List.length] in *; lia].
+Qed.
+
+Theorem parse_print_ind : forall j, reads_back_i j.
+Proof.
+  induction j using json_ind'; intros lvl k f Hk Hf;
+    try (exact (parse_print _ k f Hk Hf)).
+  - destruct l as [|x0 r0]; [exact (parse_print _ k f Hk Hf)|].
+    destruct f as [|f]; [cbn in Hf; lia|]. rewrite print_ind_arr, pv_arr.
+    cbn [jsize] in Hf. fold (sum_sizes (x0 :: r0)) in Hf.
+    cbn [pelems_i]. rewrite skip_ws_newline.
+    destruct (print_ind_head (S lvl) x0 (pelems_i lvl k false r0)) as (c2 & r2 & E & Hws & H93 & _).
+    rewrite E, (skip_ws_nonws _ _ Hws), H93, <- E.
+    rewrite (elems_parse_i r0 x0 lvl k f f H Hk); [reflexivity|lia|pose proof (length_sum (x0 :: r0)); lia].
+  - destruct kvs as [|[key v] r]; [exact (parse_print _ k f Hk Hf)|].
+    destruct f as [|f]; [cbn in Hf; lia|]. rewrite print_ind_obj, pv_obj.
+    cbn [jsize] in Hf. fold (sum_msizes ((key, v) :: r)) in Hf.
+    cbn [pmembs_i]. rewrite skip_ws_newline. unfold quote_k at 1.
+    rewrite skip_ws_nonws by reflexivity. change (code dquote =? 125) with false. cbv iota.
+    match goal with |- context [String dquote (escape_k key (String dquote ?X))] =>
+      change (String dquote (escape_k key (String dquote X))) with (quote_k key X) end.
+    rewrite (membs_parse_i r key v lvl k f f H Hk); [reflexivity|lia|pose proof (length_msum ((key, v) :: r)); lia].
+Qed.
+
+Lemma print_ind_length : forall j lvl k, jsize j + String.length k <= String.length (print_ind lvl j k).
+Proof.
+  induction j using json_ind'; intros lvl k; try exact (print_length _ k).
+  - destruct l as [|x0 r0]; [exact (print_length _ k)|].
+    rewrite print_ind_arr. cbn [jsize String.length]. fold (sum_sizes (x0 :: r0)).
+    assert (Hl : forall l first, Forall (fun j => forall lvl k, jsize j + String.length k <= String.length (print_ind lvl j k)) l ->
+                 sum_sizes l + String.length k + 1 <= String.length (pelems_i lvl k first l)).
+    { induction l as [|x r IH]; intros first HF.
+      - cbn [pelems_i sum_sizes fold_right]. pose proof (newline_length lvl (String (ch 93) k)) as E. cbn [String.length] in E. lia.
+      - inversion HF as [|? ? Hx HF']; subst. rewrite sum_sizes_cons. cbn [pelems_i].
+        specialize (Hx (S lvl) (pelems_i lvl k false r)). specialize (IH false HF').
+        destruct first.
+        + pose proof (newline_length (S lvl) (print_ind (S lvl) x (pelems_i lvl k false r))). lia.
+        + cbn [String.length]. pose proof (newline_length (S lvl) (print_ind (S lvl) x (pelems_i lvl k false r))). lia. }
+    specialize (Hl (x0 :: r0) true H). lia.
+  - destruct kvs as [|kv0 r0]; [exact (print_length _ k)|].
+    rewrite print_ind_obj. cbn [jsize String.length]. fold (sum_msizes (kv0 :: r0)).
+    assert (Hl : forall l first, Forall (fun kv : string * json => forall lvl k, jsize (snd kv) + String.length k <= String.length (print_ind lvl (snd kv) k)) l ->
+                 sum_msizes l + String.length k + 1 <= String.length (pmembs_i lvl k first l)).
+    { induction l as [|[key v] r IH]; intros first HF.
+      - cbn [pmembs_i sum_msizes fold_right]. pose proof (newline_length lvl (String (ch 125) k)) as E. cbn [String.length] in E. lia.
+      - inversion HF as [|? ? Hx HF']; subst. rewrite sum_msizes_cons. cbn [pmembs_i snd] in *.
+        specialize (Hx (S lvl) (pmembs_i lvl k false r)). specialize (IH false HF').
+        set (body := quote_k key (append ": " (print_ind (S lvl) v (pmembs_i lvl k false r)))).
+        assert (Hb : String.length (print_ind (S lvl) v (pmembs_i lvl k false r)) <= String.length body).
+        { unfold body, quote_k. cbn [String.length].
+          pose proof (escape_length key (String dquote (append ": " (print_ind (S lvl) v (pmembs_i lvl k false r))))) as E.
+          cbn [String.length] in E. rewrite append_length in E. lia. }
+        destruct first.
+        + pose proof (newline_length (S lvl) body). lia.
+        + cbn [String.length]. pose proof (newline_length (S lvl) body). lia. }
+    specialize (Hl (kv0 :: r0) true H). lia.
+Qed.
+
+(* what `griffe dump` prints reads back as the document with its keys sorted *)
+Theorem loads_dumps_cli : forall j, loads (dumps_cli j) = POk (sort_keys j) EmptyString.
+Proof.
+  intro j. unfold loads, dumps_cli.
+  rewrite (parse_print_ind (sort_keys j) 0 (String (ch 10) EmptyString)); [reflexivity|reflexivity|].
+  pose proof (print_ind_length (sort_keys j) 0 (String (ch 10) EmptyString)). lia.
+Qed.
+
+Example example_cli :
+  dumps_cli (JObj [("b", JArr [JNum 10; JArr []; JObj []]); ("a", JObj [("z", JNull); ("y", JStr "s")])])
+  = append "{" (String (ch 10) (append "  ""a"": {" (String (ch 10) (append "    ""y"": ""s""," (String (ch 10) (append "    ""z"": null" (String (ch 10)
+    (append "  }," (String (ch 10) (append "  ""b"": [" (String (ch 10) (append "    10," (String (ch 10) (append "    []," (String (ch 10) (append "    {}" (String (ch 10)
+    (append "  ]" (String (ch 10) (append "}" (String (ch 10) ""))))))))))))))))))))).
+Proof. vm_compute. reflexivity. Qed.
